@@ -38,6 +38,15 @@ class Tokenizer:
         inits tokenizer with given macros and productions which default to
         cssutils own macros and productions
         """
+        self._macros, self._productions = macros, productions
+        self._compile()
+
+        self._doComments = doComments
+        self._pushed = []
+
+    def _compile(self):
+        "compiled productions, shared by tokenizers with the same definitions"
+        macros, productions = self._macros, self._productions
         if isinstance(macros, dict):
             macros_hash_key = sorted(macros.items())
         else:
@@ -57,12 +66,10 @@ class Tokenizer:
             urimatcher = [x[1] for x in tokenmatches if x[0] == 'URI'][0]
             _TOKENIZER_CACHE[hash_key] = (tokenmatches, commentmatcher, urimatcher)
 
+        self._compiled = hash_key, _TOKENIZER_CACHE[hash_key]
         self.tokenmatches = tokenmatches
         self.commentmatcher = commentmatcher
         self.urimatcher = urimatcher
-
-        self._doComments = doComments
-        self._pushed = []
 
     def _expand_macros(self, macros, productions):
         """returns macro expanded productions, order of productions is kept"""
@@ -110,6 +117,10 @@ class Tokenizer:
             if ``True`` appends EOF token as last one and completes incomplete
             COMMENT or INVALID (to STRING) tokens
         """
+
+        if _TOKENIZER_CACHE.get(self._compiled[0]) is not self._compiled[1]:
+            # the definitions were changed since (cssutils.settings.set)
+            self._compile()
 
         def _repl(m):
             "used by unicodesub"
